@@ -743,7 +743,9 @@ fn select_shorthand(chains: &[Chain]) -> Option<String> {
         return None;
     };
     match term {
-        // `!f`, `!p`, `!%mod.recv`, `!.` — the `&` is part of the sugar.
+        // `&.` has no tight form (`!.` does not parse): keep the general `! [&.]`.
+        Term::Reference(access) if matches!(access.source, Some(AccessSource::Self_)) => None,
+        // `!f`, `!p`, `!%mod.recv` — the `&` is part of the sugar.
         Term::Reference(access) => Some(format!("!{}", render_access(access))),
         // `!#'int`, `!#Reply[...]` — a body-less identity receive.
         Term::Function(function)
